@@ -1147,7 +1147,7 @@ class Item:
         with block bodies (Rust matches string-literal patterns by string equality, so this is the
         language's own meaning of the match).  Needed because Verus derives no negative fact in the
         fall-through arm of a `&str` match."""
-        ms = [i for i, t in enumerate(self.toks) if t.s == "match"]
+        ms = [i for i, t in enumerate(self.toks) if t.s == "match" and t.line != 0]
         if nth < 1 or nth > len(ms):
             raise LostAnchor("match #%d not found in %s" % (nth, self.path))
         m = ms[nth - 1]
@@ -1159,31 +1159,57 @@ class Item:
         arms = []
         i = o + 1
         while i < c:
-            pat = self.toks[i].s
-            if not (pat == "_" or pat.startswith('"')):
-                raise LostAnchor("match arm pattern %r is not a string literal or `_`" % pat)
-            if not (self.toks[i + 1].s == "=" and self.toks[i + 2].s == ">" and self.toks[i + 3].s == "{"):
-                raise LostAnchor("match arm %r has no block body" % pat)
-            bo = i + 3
-            bc = match_close(self.toks, bo)
-            arms.append((pat, bo, bc))
-            i = bc + 1
+            pats = []
+            while True:
+                pat = self.toks[i].s
+                if not (pat == "_" or pat.startswith('"')):
+                    raise LostAnchor("match arm pattern %r is not a string literal or `_`" % pat)
+                pats.append(pat)
+                i += 1
+                if self.toks[i].s == "|":       # or-pattern of string literals
+                    i += 1
+                    continue
+                break
+            if not (self.toks[i].s == "=" and self.toks[i + 1].s == ">"):
+                raise LostAnchor("match arm %r: expected `=>`" % pats)
+            i += 2
+            if self.toks[i].s == "{":
+                bo = i
+                bc = match_close(self.toks, bo)
+                body = self.toks[bo:bc + 1]
+                i = bc + 1
+            else:
+                # expression body: up to the `,` at depth 0 (or the end of the match)
+                d = 0
+                q = i
+                while q < c:
+                    x = self.toks[q].s
+                    if x in OPEN:
+                        d += 1
+                    elif x in CLOSE:
+                        d -= 1
+                    elif x == "," and d == 0:
+                        break
+                    q += 1
+                line0 = self.toks[i].line
+                body = [Tok(" ", "{", line0)] + self.toks[i:q] + [Tok(" ", "}", line0)]
+                i = q
+            arms.append((pats, body))
             if i < c and self.toks[i].s == ",":
                 i += 1
-        if not arms or arms[-1][0] != "_" or any(a[0] == "_" for a in arms[:-1]):
+        if not arms or arms[-1][0] != ["_"] or any("_" in a[0] for a in arms[:-1]):
             raise LostAnchor("match must end in exactly one `_` arm")
         line = self.toks[m].line
         out = []
-        for k, (pat, bo, bc) in enumerate(arms):
-            if pat == "_":
+        for k, (pats, body) in enumerate(arms):
+            if pats == ["_"]:
                 head = tokenize(" else")
-            elif k == 0:
-                head = tokenize("if %s(%s, %s)" % (eqfn, scrut, pat))
             else:
-                head = tokenize(" else if %s(%s, %s)" % (eqfn, scrut, pat))
+                cond = " || ".join("%s(%s, %s)" % (eqfn, scrut, p_) for p_ in pats)
+                head = tokenize(("if " if k == 0 else " else if ") + cond)
             for t in head:
                 t.line = line
-            out += head + self.toks[bo:bc + 1]
+            out += head + body
         out[0].ws = self.toks[m].ws
         self.toks[m:c + 1] = out
         self.log.append({"kind": "desugar-match-str", "match": nth, "scrutinee": scrut,
